@@ -177,6 +177,11 @@ class _G:
                 fn = {"name": self.pick(["isnone", "tostr"] if hashable else APPLY_FNS + (["boomnone"] if self.p.get("faults") else []))}
             else:
                 fn = {"step": "pair", "param": self.node(0, hashable=False)}
+                if len(self.defs) >= 2 and self.chance(self.p.get("apply_refs", 0.25)):
+                    # input and step parameter both produced by datasets: the order of production is observable
+                    a, b = self.draw(st.permutations(self.defs))[:2]
+                    fn["param"] = {"k": "ref", "name": b["name"]}
+                    return {"k": "apply", "src": {"k": "ref", "name": a["name"]}, "fn": fn}
             return {"k": "apply", "src": self.node(d, hashable, lazy_ok=False), "fn": fn}
         if k == "bind":
             src = self.node(d, hashable=True)
@@ -238,7 +243,11 @@ class _G:
                     it = {"k": "list", "items": [self.node(0, hashable=True) for _ in range(self.draw(st.integers(0, 2)))]}
                 iters.append([key, it])
             how = self.pick((["list"] if self.p.get("picklable") else ["list", "values_list"]) + (["raw", "values_raw"] if lazy_ok else []))
-            return {"k": "map", "body": self.node(d), "iters": iters, "as": how}
+            body = self.node(d)
+            if self.chance(0.7):
+                # the body reads (at least) one of the keys the Map assigns
+                body = {"k": "tuple", "items": [{"k": "opt", "key": self.pick([k for k, _ in iters])}, body]}
+            return {"k": "map", "body": body, "iters": iters, "as": how}
         if k == "with":
             return {"k": "with", "body": self.node(d, hashable), "opts": self.small_opts(), "force": self.chance(0.5)}
         if k == "cached":
